@@ -2,6 +2,7 @@ package c01
 
 import (
 	"fmt"
+	"strings"
 	"testing"
 	"time"
 
@@ -19,9 +20,25 @@ const (
 	pkSplice        // two concurrent sessions, a frame exchanged / sessions re-paired
 	pkReplay        // frames recorded from an earlier session injected into a later one
 	pkByz           // Byzantine peer instead of an honest one
+	pkReuse         // ONE Noise SessionTransport (WithSessionOptions called once) serves a sequence of 2-4 handshakes in drawn roles
 )
 
-var pkNames = []string{"config", "wire", "splice", "replay", "byzantine"}
+var pkNames = []string{"config", "wire", "splice", "replay", "byzantine", "reuse"}
+
+// reuse kind: what the owner of the reused SessionTransport does in one step
+const (
+	ruInboundAnon  = iota // SecureInbound naming nobody
+	ruInboundNamed        // SecureInbound naming a peer
+	ruOutbound            // SecureOutbound
+)
+
+var ruNames = []string{"inbound-anonymous", "inbound-named", "outbound"}
+
+type reuseStep struct {
+	role    int
+	named   int   // exMatch: the peer that really shows up; exOther: somebody else (the peer that shows up is an impostor with its own valid key)
+	partner ident // the honest process at the other end
+}
 
 var wireKinds = []int{edFlip, edDup, edDrop, edTruncFix, edTruncRaw, edExtendFix, edExtendRaw, edCut}
 
@@ -35,6 +52,9 @@ type pipeCfg struct {
 	twin     bool
 	ed       edit
 	byz      byzPlan
+	// reuse
+	owner party
+	steps []reuseStep
 }
 
 func drawParties(g simrt.Gen, tls bool, slotI, slotR int, forceCompat bool) (party, party) {
@@ -102,7 +122,7 @@ func frameVarLen(tls bool, ip, rp party, dir, idx int) bool {
 
 func drawPipe(g simrt.Gen) pipeCfg {
 	var c pipeCfg
-	c.kind = g.Weighted(2, 10, 3, 3, 5)
+	c.kind = g.Weighted(2, 10, 3, 3, 5, 3)
 	c.tls = g.Bool()
 	switch c.kind {
 	case pkConfig:
@@ -168,6 +188,22 @@ func drawPipe(g simrt.Gen) pipeCfg {
 		c.ed.dir, c.ed.idx = drawFrame(g, c.tls)
 	case pkByz:
 		c.byz = drawByz(g, c.tls)
+	case pkReuse:
+		c.tls = false
+		c.owner = party{id: ident{g.Int(nKeyTypes), slotI}, session: true}
+		if g.Bool() {
+			c.owner.prologue = []byte("certhash-aa")
+		}
+		c.owner.noCheck = g.Chance(1, 4)
+		if g.Bool() {
+			c.owner.early = "early-from-O"
+		}
+		n := 2 + g.Int(3)
+		for i := 0; i < n; i++ {
+			st := reuseStep{role: g.Int(3), named: []int{exMatch, exOther}[g.Int(2)]}
+			st.partner = ident{g.Int(nKeyTypes), []int{slotR, slotI2, slotR2, slotM}[i]}
+			c.steps = append(c.steps, st)
+		}
 	}
 	// link chunking: fragmenting modes only when every length on the wire is a function of the tape
 	c.mode = simnet.Whole
@@ -177,6 +213,12 @@ func drawPipe(g simrt.Gen) pipeCfg {
 	}
 	if c.kind == pkByz {
 		det = !c.tls && !varLen(c.byz.honest.id.typ) && !varLen(c.byz.typ)
+	}
+	if c.kind == pkReuse {
+		det = !varLen(c.owner.id.typ)
+		for _, st := range c.steps {
+			det = det && !varLen(st.partner.typ)
+		}
 	}
 	if det {
 		c.mode = []simnet.LinkMode{simnet.Whole, simnet.Fragment, simnet.Tiny}[g.Weighted(3, 3, 1)]
@@ -268,6 +310,40 @@ func runPipe(t *testing.T, tape *simrt.Tape, g simrt.Gen, o *common.Outcome) {
 			markMustFail(second)
 		case pkByz:
 			byzRes = runByz(env, c.byz)
+		case pkReuse:
+			env.reuse = true
+			for i, st := range c.steps {
+				op := c.owner
+				pp := party{id: st.partner, session: true, prologue: c.owner.prologue}
+				if c.owner.early != "" {
+					pp.early = "early-from-P"
+				}
+				ip, rp := pp, op
+				switch st.role {
+				case ruInboundAnon:
+					rp.expect, ip.expect = exEmpty, exMatch
+				case ruInboundNamed:
+					rp.expect, ip.expect = st.named, exMatch
+				case ruOutbound:
+					ip, rp = op, pp
+					ip.expect, rp.expect = st.named, exEmpty
+				}
+				s, err := env.start(fmt.Sprintf("%d", i+1), ip, rp, edit{}, ident{}, ident{})
+				if err != nil {
+					o.Trouble = err.Error()
+					return
+				}
+				own := s.R
+				if st.role == ruOutbound {
+					own = s.I
+				}
+				if own.edh != nil {
+					own.edh.got, own.edh.n = nil, 0 // the handler object is the transport's: what it holds is from the previous handshake
+				}
+				sessions = append(sessions, s)
+				env.launch(s)
+				wg.Wait()
+			}
 		}
 		simrt.WaitIdle()
 	})
@@ -280,6 +356,9 @@ func runPipe(t *testing.T, tape *simrt.Tape, g simrt.Gen, o *common.Outcome) {
 			o.Trouble = "mallory: " + s.m.trouble
 		}
 		what := fmt.Sprintf("%s/%s session %q, %s", pkNames[c.kind], protoName(c.tls), s.name, s.m.ed)
+		if c.kind == pkReuse {
+			what = fmt.Sprintf("reuse/noise: ONE SessionTransport of {%s} serves in turn %s; handshake %s", c.owner.id, reuseDesc(c), s.name)
+		}
 		judge(o, s, what)
 		adversary := s.m.ed.kind != edNone
 		if !adversary {
@@ -330,6 +409,31 @@ func runPipe(t *testing.T, tape *simrt.Tape, g simrt.Gen, o *common.Outcome) {
 			o.Probe("clean-" + protoName(c.tls) + "-" + keyTypeNames[s.I.p.id.typ] + "-" + keyTypeNames[s.R.p.id.typ])
 		}
 	}
+	if c.kind == pkReuse {
+		o.Logf("one SessionTransport of {%s} reused for: %s", c.owner, reuseDesc(c))
+		anonBefore := false
+		for i, st := range c.steps {
+			if i < len(sessions) {
+				own := sessions[i].R
+				if st.role == ruOutbound {
+					own = sessions[i].I
+				}
+				if st.role != ruInboundAnon && anonBefore {
+					o.Probe("reused-session-transport-named-after-anonymous")
+					if st.named == exOther && own.errKind == "mismatch" {
+						o.Probe("reused-session-transport-refuses-impostor-after-anonymous")
+					}
+				}
+				if own.hsOK {
+					o.Probe("reused-session-transport-" + ruNames[st.role] + "-completes")
+				}
+			}
+			anonBefore = anonBefore || st.role == ruInboundAnon
+		}
+		if len(sessions) >= 2 {
+			o.Nontrivial = true
+		}
+	}
 	if byzRes != nil {
 		byzRes.judge(o, c.byz)
 		sig += byzRes.sig
@@ -348,4 +452,16 @@ func finish(o *common.Outcome, res simrt.Result, stratum string) {
 	if len(res.Residue) > 0 && o.Trouble == "" {
 		o.Trouble = fmt.Sprintf("%s: goroutines left after the run: %v", stratum, res.Residue)
 	}
+}
+
+func reuseDesc(c pipeCfg) string {
+	var l []string
+	for i, st := range c.steps {
+		x := fmt.Sprintf("%d:%s", i+1, ruNames[st.role])
+		if st.role != ruInboundAnon {
+			x += "(names " + exNames[st.named] + ")"
+		}
+		l = append(l, x+" with "+st.partner.String())
+	}
+	return strings.Join(l, ", ")
 }
